@@ -39,6 +39,26 @@ def roundtrip (raw : Bytes) (blunt pad realPSK : Bool) (m : Preset.Material) : O
     | none => none
   | _ => none
 
+/-! ## one spec value as the receiver of several `FromRaw` calls -/
+
+/-- `chs.FromRaw(raw, …)` on a receiver that already holds a spec: `*chs = ClientHelloSpec{}` comes
+first, so nothing of the previous content — neither its fields nor the storage of its extension list —
+takes part. -/
+def fromRawInto (_recv : Import.Spec) (raw : Bytes) (blunt realPSK : Bool) : Import.ImportRes :=
+  Import.fromRaw raw blunt realPSK
+
+/-- a caller that fingerprints the records `raws` one after the other with the same receiver and keeps
+every result by value: the results, in call order (a failed call leaves the receiver as it was reset —
+empty — for the next one). -/
+def fromRawSeq (recv : Import.Spec) (blunt realPSK : Bool) : List Bytes → List Import.ImportRes
+  | [] => []
+  | raw :: rest =>
+    let r := fromRawInto recv raw blunt realPSK
+    let recv' := match r with
+      | .ok s => s
+      | _ => { suites := [], comp := [], vmin := 0, vmax := 0, exts := [] }
+    r :: fromRawSeq recv' blunt realPSK rest
+
 /-! ## which hellos the round trip is claimed for -/
 
 /-- the extensions that are on the wire, as values: what `MarshalClientHelloNoECH` emitted. -/
